@@ -45,6 +45,7 @@ struct Dgram {
 	int stream = -1;       // stream id (src host -> dst host)
 	uint64_t ordinal = 0;  // ordinal on that stream
 	uint64_t t_sent = 0;
+	bool redelivery = false; // a copy injected by a redeliver fate
 };
 
 struct Host {
@@ -134,6 +135,14 @@ struct Violation {
 };
 
 // per-datagram fate decided by the path model
+// a later re-delivery of the same datagram (impatient / load-balanced relay)
+struct Redeliv {
+	uint64_t delay = 0;          // us after the original's delivery time
+	uint16_t idxor = 0;          // DNS id changed by xor (0 = same id)
+	uint64_t recase = 0;         // non-zero: letters of the question name re-cased by this key
+	bool altsrc = false;         // arrives from another relay address
+};
+
 struct Fate {
 	bool drop = false;
 	int dup = 0;                 // extra copies
@@ -143,13 +152,17 @@ struct Fate {
 	int flipbit = -1;            // bit index, -1 = none
 	bool has_replace = false;    // on-path party substitutes the whole datagram
 	Bytes replace;
-	bool is_default() const { return !drop && !dup && !extra_delay && trunc < 0 && flipbit < 0 && !has_replace; }
+	std::vector<Redeliv> redeliv;
+	bool is_default() const { return !drop && !dup && !extra_delay && trunc < 0 && flipbit < 0 && !has_replace && redeliv.empty(); }
 };
 
 struct FaultCfg {
 	// generative mode: probabilities in a window [t0,t1) (us)
 	uint64_t t0 = 0, t1 = 0;
 	double p_drop = 0, p_dup = 0, p_delay = 0, p_trunc = 0, p_flip = 0;
+	double p_redeliv = 0;            // queries to port 53 only
+	double p_rd_newid = 0, p_rd_recase = 0, p_rd_altsrc = 0;
+	uint64_t rd_max_delay = 0;
 	uint64_t max_delay = 0;
 	bool enabled() const { return t1 > t0; }
 };
@@ -185,7 +198,8 @@ struct Sim {
 	std::map<std::pair<int,int>, int> stream_ids;   // (src host, dst host) -> stream
 	std::vector<uint64_t> stream_next;              // next ordinal per stream
 	std::vector<std::pair<int,int>> stream_hosts;
-	std::map<std::pair<int,uint64_t>, Fate> fates;  // explicit fates
+	std::map<std::pair<int,uint64_t>, Fate> fates;  // explicit fates (by stream id)
+	std::map<std::string, Fate> named_fates;        // explicit fates keyed "fromhost>tohost#n" (hosts may be created later)
 	std::vector<std::pair<std::pair<int,uint64_t>, Fate>> fired; // recorded non-default
 	bool explicit_fates = false;    // replay mode: only listed fates
 	FaultCfg faults;
@@ -196,7 +210,12 @@ struct Sim {
 	std::function<bool(Dgram &)> path_filter;
 	// generative mode only: a hostile on-path party may decide to replace this datagram
 	std::function<void(const Dgram &, Fate &)> gen_mutator;
-	std::function<void(const std::pair<int,uint64_t> &, const Fate &)> on_fired;   // live log for runs that die
+	std::function<void(const std::pair<int,uint64_t> &, const Fate &)> on_fired;
+	std::function<std::string(const Bytes &)> trace_decode;   // human-readable summary of a datagram (trace only)
+	// a scheduled re-delivery is dropped when the gate says it is outside the window under test
+	std::function<bool(const Dgram &)> redeliver_gate;
+	// a relay that re-sent a query under a new id maps the answer back to the id its client used
+	std::map<std::pair<std::string, uint16_t>, uint16_t> rd_idmap;   // live log for runs that die
 
 	// receive buffer residue (C12)
 	int residue_mode = 0;           // 0 zeros, 1 0xFF, 2 marker, 3 previous datagram of other source
